@@ -33,6 +33,16 @@ func main() {
 		os.Exit(cmdList(os.Args[2:]))
 	case "replay":
 		os.Exit(cmdReplay(os.Args[2:]))
+	case "scenario":
+		// goatvc scenario <file.go.tmpl>: run one hand-written history against /repo
+		out, ok := runOverlayTest("/repo", os.Args[2])
+		fmt.Println(out)
+		if ok {
+			fmt.Println("scenario: reproduced on the real code")
+			os.Exit(1)
+		}
+		fmt.Println("scenario: did not reproduce")
+		os.Exit(0)
 	}
 	fmt.Println("unknown command")
 	os.Exit(2)
@@ -91,6 +101,9 @@ func (ex *Exec) verifyFunc(key string) error {
 	var binds []Val
 	for _, fv := range fn.FreeVars {
 		b := ex.symVal(st, fv.Type(), "fv."+fv.Name())
+		if name, ok := resolveCell(fv); ok && b.Arr != "" {
+			b.Arr = name
+		}
 		st.assume("(> " + b.T + " 0)")
 		binds = append(binds, b)
 	}
@@ -696,6 +709,9 @@ func (ex *Exec) funcsUsingSharedSpecs(P string) []string {
 		if cc.MsgInv.hasProp(P) {
 			classP = true
 		}
+	}
+	if P == "C11" {
+		classP = true // every send is a candidate for "blocking while holding a teardown lock"
 	}
 	if len(lockKeys) == 0 && !classP {
 		return nil
